@@ -137,8 +137,13 @@ def gen_cases(draw):
     v = draw(gen.vspec_for(spec, spec['doc_type'], hard=True, finite=True))
     if v is None:
         return {'plain': draw(json_plain()), 'indent': ind, 'ascii': asc}
+    if draw(st.integers(0, 3)) == 0:
+        # the value twice in a list: after interning, every date / path /
+        # string-like leaf below it is one object referenced from two places
+        spec = dict(spec, doc_type=['list', spec['doc_type']])
+        v = ['list', [v, v]]
     return {'model': spec, 'value': v, 'indent': ind, 'ascii': asc, 'prelude': pre,
-            'sink': draw(st.booleans())}
+            'sink': draw(st.booleans()), 'twin': draw(st.booleans())}
 
 
 @st.composite
@@ -261,11 +266,16 @@ def check(case, ctx):
             return
         dumps = m.dumps_json
         ctx.count('model_value')
+        if case.get('twin') and isinstance(value, list) and value:
+            # an equal copy of the first item: equal date / path / string-like
+            # leaves below it then become one object each (interning below)
+            value.append(m.realize(case['value'])[0])
+            ctx.count('first_item_twice_as_equal_copies')
     if case.get('intern', True):
         # equal date / path leaves become the same object: still a tree
         value, n = proj.intern_leaves(value, m)
         if n:
-            ctx.count('date_or_path_leaf_object_used_twice')
+            ctx.count('date_path_or_stringlike_leaf_object_used_twice')
     try:
         yproj = proj.Projector(m, json=False).project(value)
         jproj = proj.Projector(m, json=True).project(value)
